@@ -21,6 +21,7 @@ import copy
 import io
 import itertools
 import json
+import os
 import random
 import re
 import warnings
@@ -429,6 +430,7 @@ def part_build(ctx: Ctx, rng: random.Random) -> int:
 # ------------------------------------------------------------------ part 4: cache state machine
 CACHE_CFG = """SPECIFICATION Spec
 CONSTANTS RuleSetIds = {{1, 2, 3, 4, 5}}
+          KindlessStart = {kl}
           MaxMoves = {moves}
           MaxDepth = {depth}
           CacheKey = "{key}"
@@ -457,10 +459,17 @@ def replay_behaviour(rec: Dict[str, Any], refs: Dict[str, str] | None) -> Dict[s
     L = model.Class(system, "c", mods["b"])
     system.addObject(L)
     objs = {"a": mods["a"], "b": mods["b"], "K": K, "F": F, "L": L}
+    kindless = bool(rec.get("kl0"))
+    if kindless:
+        F.kind = None                                # a Documentable has no kind until the builder gives it one
     bad: List[Dict[str, Any]] = []
     drift: List[Dict[str, Any]] = []
     for i, st in enumerate(rec["h"]):
         o = objs[st["o"]]
+        if st["op"] == "givekind":
+            F.kind = model.DocumentableKind.FUNCTION
+            kindless = False
+            continue
         name = "".join(st["name"])
         if o.fullName() != name:
             drift.append({"step": i, "what": "fullName", "spec": name, "real": o.fullName()})
@@ -474,22 +483,22 @@ def replay_behaviour(rec: Dict[str, Any], refs: Dict[str, str] | None) -> Dict[s
         if st["op"] == "reparent":
             o.reparent(mods[st["mod"]], "".join(st["nm"]))
             continue
-        if real != st["exp"]:
+        if st["exp"] != "-" and real != st["exp"]:   # "-": an object without a kind is outside the statement
             bad.append({"step": i, "op": st["op"], "name": o.fullName(), "expected": st["exp"], "observed": real})
         elif real != st["got"]:
             drift.append({"step": i, "what": st["op"], "spec": st["got"], "real": real})
     real_cache = observe_cache(system)               # None: representation not the expected one, not looked into
     spec_cache = {"".join(e["k"]): e["v"] for e in rec["cache"]}
-    if refs is not None and real_cache is not None:
-        for k, v in real_cache.items():
-            if k in refs and refs[k] != v:       # CacheSound evaluated on the observed real cache
-                bad.append({"step": len(rec["h"]), "op": "cache", "name": k, "expected": refs[k], "observed": v})
+    # the content of the private cache is never a verdict by itself (what it makes the System ANSWER is, below);
+    # a difference with the model's cache is model drift
     if real_cache is not None and real_cache != spec_cache and not bad:
         drift.append({"what": "cache", "spec": spec_cache, "real": real_cache})
     if refs is not None:
         # ObservedRight as the spec states it, on the real final state and through behaviour only: what a query
         # answers NOW is the documented privacy of the object's CURRENT qualified name, whatever was asked before
         for tag, o in objs.items():
+            if tag == "F" and kindless:
+                continue
             try:
                 real = o.privacyClass.name
             except Exception as ex:
@@ -503,12 +512,12 @@ def replay_behaviour(rec: Dict[str, Any], refs: Dict[str, str] | None) -> Dict[s
 
 def part_cache(ctx: Ctx) -> int:
     moves, depth = (2, 3) if ctx.quick else (3, 5)
-    r = ctx.tlc("PrivacyCache", CACHE_CFG.format(moves=moves, depth=depth, key="fullName",
+    r = ctx.tlc("PrivacyCache", CACHE_CFG.format(moves=moves, depth=depth, key="fullName", kl="{FALSE, TRUE}",
                                                  emit="ACTION_CONSTRAINT EmitEdge"),
                 workers="auto", coverage=ctx.quick, timeout=1500)
     # deeper behaviours (stale keys taken over by another object ...), random walks of the same spec
     nsim = 150 if ctx.quick else 2500
-    rs = ctx.tlc("PrivacyCache", CACHE_CFG.format(moves=4, depth=9, key="fullName", emit="ACTION_CONSTRAINT EmitEdge"),
+    rs = ctx.tlc("PrivacyCache", CACHE_CFG.format(moves=4, depth=9, key="fullName", kl="{FALSE, TRUE}", emit="ACTION_CONSTRAINT EmitEdge"),
                  workers=1, simulate=f"num={nsim}", depth=9, seed=ctx.seed, timeout=1500)
     for x in (r, rs):
         if x.errors or (x.rc != 0 and not x.violated):
@@ -526,7 +535,7 @@ def part_cache(ctx: Ctx) -> int:
     seen = set()
     for x in rs.printed:
         if isinstance(x, dict) and "h" in x:
-            k = json.dumps([x["rid"], [[st["op"], st["o"], st["mod"], st["nm"]] for st in x["h"]]])
+            k = json.dumps([x["rid"], x.get("kl0"), [[st["op"], st["o"], st["mod"], st["nm"]] for st in x["h"]]])
             if k not in seen:
                 seen.add(k)
                 recs.append(x)
@@ -557,23 +566,130 @@ def part_cache(ctx: Ctx) -> int:
         cov = {m.group(1): int(m.group(2)) for m in
                re.finditer(r"^<(\w+) line [^>]*?of module PrivacyCache(?: \([\d ]+\))?>: (\d+):\d+", r.out, re.M)}
         ctx.extra["action_coverage"] = cov
-        ctx.extra["actions_never_taken"] = [a for a in ("Query", "QueryVisible", "Reparent") if not cov.get(a)]
+        ctx.extra["actions_never_taken"] = [a for a in ("Query", "QueryVisible", "Reparent", "GiveKind") if not cov.get(a)]
         if ctx.extra["actions_never_taken"]:
             raise MachineryError(f"vacuous action in PrivacyCache: {ctx.extra['actions_never_taken']}")
     # design-level negative control: a cache keyed by object identity must break ObservedRight in the model
-    r2 = ctx.tlc("PrivacyCache", CACHE_CFG.format(moves=1, depth=3, key="object", emit=""), workers=4, count=False,
+    r2 = ctx.tlc("PrivacyCache", CACHE_CFG.format(moves=1, depth=3, key="object", kl="{FALSE}", emit=""), workers=4, count=False,
                  timeout=600)
     okc = "ObservedRight" in r2.violated
     ctx.extra.setdefault("negative_control", {})["identity_keyed_cache_violates_model_invariant"] = okc
     if not okc:
         raise MachineryError("negative control (cache keyed by object identity) was not rejected by TLC")
     # second control: keyed by object, reparent() forgets the moved object only (members keep their old privacy)
-    r3 = ctx.tlc("PrivacyCache", CACHE_CFG.format(moves=1, depth=3, key="objectPop", emit=""), workers=4, count=False,
+    r3 = ctx.tlc("PrivacyCache", CACHE_CFG.format(moves=1, depth=3, key="objectPop", kl="{FALSE}", emit=""), workers=4, count=False,
                  timeout=600)
     okc = "ObservedRight" in r3.violated
     ctx.extra["negative_control"]["object_keyed_cache_forgetting_only_the_moved_object_violates_model_invariant"] = okc
     if not okc:
         raise MachineryError("negative control (object-keyed cache, entry of the moved object dropped) was not rejected by TLC")
+    # third control: the HIDDEN answered for an object without a kind is remembered under its name
+    r4 = ctx.tlc("PrivacyCache", CACHE_CFG.format(moves=0, depth=3, key="kindCached", kl="{TRUE}", emit=""), workers=4, count=False,
+                 timeout=600)
+    okc = "ObservedRight" in r4.violated
+    ctx.extra["negative_control"]["hidden_of_a_kindless_object_cached_violates_model_invariant"] = okc
+    if not okc:
+        raise MachineryError("negative control (answer for a kindless object cached) was not rejected by TLC")
+    return nontrivial
+
+
+# ------------------------------------------------------------- part 5: several Systems in one process
+SYS_CFG = """SPECIFICATION Spec
+CONSTANTS MaxSystems = {ms}
+          MaxSteps = {steps}
+          Sharing = "{sharing}"
+VIEW View
+CONSTRAINT Bound
+{emit}
+INVARIANT OwnRulesOnly
+"""
+
+
+def replay_systems(hist: List[Dict[str, Any]]) -> List[Dict[str, Any]]:
+    """One behaviour of PrivacySystems.tla with real Systems, in a forked child (Systems of other behaviours, and of the
+    rest of the check, are not in its past). Returns the observed answer of every query step."""
+    rd, wr = os.pipe()
+    pid = os.fork()
+    if pid == 0:
+        try:
+            os.close(rd)
+            from pydoctor import model
+            from pydoctor.options import Options
+            from pydoctor.utils import parse_privacy_tuple
+            systems: List[Any] = []
+            objs: List[Dict[str, Any]] = []
+            out = []
+            for st in hist:
+                rules = [(r["lv"], "".join(r["pat"])) for r in st["rules"]]
+                if st["op"] == "new":
+                    system = model.System(Options.from_args(rule_args(rules))) if rules else model.System()
+                    systems.append(system)
+                    objs.append(build_objects(system, ["a", "a.c"]))
+                elif st["op"] == "append":
+                    lv, pat = rules[0]
+                    systems[st["s"] - 1].options.privacy.append(parse_privacy_tuple(f"{lv}:{pat}", "--privacy"))
+                else:
+                    try:
+                        real = objs[st["s"] - 1]["".join(st["name"])].privacyClass.name
+                    except Exception as ex:
+                        real = "raised " + type(ex).__name__
+                    out.append(real)
+            with os.fdopen(wr, "w") as f:
+                json.dump(out, f)
+        finally:
+            os._exit(0)
+    os.close(wr)
+    with os.fdopen(rd) as f:
+        data = f.read()
+    os.waitpid(pid, 0)
+    if not data:
+        raise MachineryError("the child process replaying a PrivacySystems behaviour returned nothing")
+    got = json.loads(data)
+    res, k = [], 0
+    for i, st in enumerate(hist):
+        if st["op"] == "query":
+            res.append({"step": i, "system": st["s"], "name": "".join(st["name"]), "expected": st["exp"], "spec": st["got"],
+                        "observed": got[k]})
+            k += 1
+    return res
+
+
+def show_systems(hist: List[Dict[str, Any]]) -> List[Any]:
+    return [[st["op"], st["s"], [f"{r['lv']}:{''.join(r['pat'])}" for r in st["rules"]] or "".join(st["name"])] for st in hist]
+
+
+def part_systems(ctx: Ctx) -> int:
+    ms, steps = (2, 4) if ctx.quick else (3, 5)
+    r = ctx.tlc("PrivacySystems", SYS_CFG.format(ms=ms, steps=steps, sharing="none", emit="ACTION_CONSTRAINT EmitEdge"),
+                workers=1, timeout=900)
+    if r.errors or r.violated or r.rc != 0:
+        raise MachineryError(f"TLC failed on PrivacySystems: {r.errors[:3]} {r.violated} rc={r.rc}")
+    recs = [x for x in r.printed if isinstance(x, dict) and "h" in x and any(st["op"] == "query" for st in x["h"])]
+    if not recs:
+        raise MachineryError("PrivacySystems emitted no behaviour with a query")
+    nontrivial = 0
+    for n, rec in enumerate(recs):
+        res = replay_systems(rec["h"])
+        ctx.traces += 1
+        nontrivial += sum(1 for st in rec["h"] if st["op"] == "new") > 1
+        bad = [x for x in res if x["observed"] != x["expected"]]
+        if bad:
+            ctx.violation({"invariant": "OwnRulesOnly", "kind": "systems", "behaviour": rec["h"], "history": show_systems(rec["h"]),
+                           "failed": bad, "expected": bad[0]["expected"], "observed": bad[0]["observed"],
+                           "key": f"systems:{show_systems(rec['h'])}"})
+        else:
+            for x in res:
+                if x["observed"] != x["spec"]:
+                    ctx.drift_note({"kind": "systems", "history": show_systems(rec["h"]), **x})
+        if n == len(recs) - 1:
+            sample(ctx, {"kind": "systems", "history": show_systems(rec["h"]), "answers": [x["observed"] for x in res]})
+    ctx.extra["systems_machine"] = {"MaxSystems": ms, "MaxSteps": steps, "behaviours_replayed_each_in_a_forked_child": len(recs),
+                                    "with_two_or_more_systems": nontrivial}
+    r2 = ctx.tlc("PrivacySystems", SYS_CFG.format(ms=2, steps=4, sharing="defaultList", emit=""), workers=1, count=False, timeout=600)
+    okc = "OwnRulesOnly" in r2.violated
+    ctx.extra.setdefault("negative_control", {})["shared_default_rule_list_violates_model_invariant"] = okc
+    if not okc:
+        raise MachineryError("negative control (default rule list shared between Systems) was not rejected by TLC")
     return nontrivial
 
 
@@ -583,7 +699,7 @@ def run(ctx: Ctx) -> int:
     n1 = part_match(ctx, rng)
     n2 = part_rules(ctx, rng)
     n3 = part_build(ctx, rng)
-    n4 = part_cache(ctx)
+    n4 = part_cache(ctx) + part_systems(ctx)
     ctx.extra.pop("_sampled", None)
     ctx.exhaustive = True
     ctx.assumptions += [
@@ -624,6 +740,8 @@ def replay(ctx: Ctx, path: str) -> int:
     elif w.get("kind") == "build":
         names, res, _ = observe_build(ctx, [tuple(r) for r in w["rules"]], random.Random(w.get("seed", 0)))
         bad = sorted({(n, g) for n, g in zip(names, res) if n in w["expected"] and w["expected"][n] != g})
+    elif w.get("kind") == "systems":
+        bad = [x for x in replay_systems(w["behaviour"]) if x["observed"] != x["expected"]]
     elif w.get("kind") == "cache":
         bad = replay_behaviour(w["behaviour"], w.get("refs"))["bad"]
     else:
